@@ -77,6 +77,9 @@ Solver::Solver(Variables const &vs, Constraints const &cs)
         // active yet.  The constraints may have been left active by an
         // earlier solver instance over the same objects.
         c->active = false;
+        // Likewise a flag left by an earlier solver instance says nothing
+        // about this problem instance.
+        c->unsatisfiable = false;
     }
     bs=new Blocks(vs);
 #ifdef LIBVPSC_LOGGING
@@ -92,6 +95,7 @@ void IncSolver::addConstraint(Constraint *c)
 {
     ++m;
     c->active = false;
+    c->unsatisfiable = false;
     inactive.push_back(c);
     c->left->out.push_back(c);
     c->right->in.push_back(c);
